@@ -1,4 +1,5 @@
 CONSTANTS P = 43  A = 0  B = 7  Gx = 2  Gy = 12  N = 31
+          SecLens <- LensQ
           Stage = "der"
           SecPfx = {4}  SecXs = {0}  SecYs = {0}  SecLongYs = {0} DerPos <- PosGridQ  DerExt <- Sigma8  DerExtLen = 3
 SPECIFICATION Spec
